@@ -32,6 +32,29 @@ theorem contains_box (sp : Space K) (lo hi : K) (hk : sp.kind = .box lo hi) (v :
     obtain ⟨y, rfl, hy⟩ := h2 x hx
     simpa using hy
 
+/-- membership in a box whose contracts have their own bounds: right length, every entry a number within the
+    bounds *of its own contract* -/
+theorem contains_boxv (sp : Space K) (bs : List (K × K)) (hk : sp.kind = .boxv bs) (v : List (Option K))
+    (hb : bs.length = sp.keys.length) :
+    contains sp (.vec v) = true ↔
+      v.length = sp.keys.length ∧ ∀ p ∈ v.zip bs, ∃ y, p.1 = some y ∧ p.2.1 ≤ y ∧ y ≤ p.2.2 := by
+  unfold contains
+  simp only [hk, hb, decide_true, Bool.and_true, Bool.and_eq_true, decide_eq_true_eq, List.all_eq_true]
+  constructor
+  · rintro ⟨h1, h2⟩
+    refine ⟨h1, ?_⟩
+    intro p hp
+    have := h2 p hp
+    cases hx : p.1 with
+    | none => rw [hx] at this; simp at this
+    | some y => rw [hx] at this; exact ⟨y, rfl, by simpa using this⟩
+  · rintro ⟨h1, h2⟩
+    refine ⟨h1, ?_⟩
+    intro p hp
+    obtain ⟨y, hy, hl⟩ := h2 p hp
+    rw [hy]
+    simpa using hl
+
 /-- membership in a discrete space: an integer index in `[0, n)` -/
 theorem contains_discrete (sp : Space K) (allocs : List (List K)) (hk : sp.kind = .disc allocs) (i : Int) :
     contains sp (.idx i) = true ↔ 0 ≤ i ∧ i < allocs.length := by
@@ -43,10 +66,12 @@ theorem contains_discrete (sp : Space K) (allocs : List (List K)) (hk : sp.kind 
 theorem contains_wrong_kind (sp : Space K) :
     contains sp .junk = false ∧
     (∀ allocs v, sp.kind = .disc allocs → contains sp (.vec v) = false) ∧
-    (∀ lo hi i, sp.kind = .box lo hi → contains sp (.idx i) = false) := by
-  refine ⟨rfl, ?_, ?_⟩
+    (∀ lo hi i, sp.kind = .box lo hi → contains sp (.idx i) = false) ∧
+    (∀ bs i, sp.kind = .boxv bs → contains sp (.idx i) = false) := by
+  refine ⟨rfl, ?_, ?_, ?_⟩
   · intro allocs v h; unfold contains; simp [h]
   · intro lo hi i h; unfold contains; simp [h]
+  · intro bs i h; unfold contains; simp [h]
 
 /-- **An action outside the space is never executed**: when the action that is due at this step is not a
     member, `step` reports `invalidAction`; no trade is executed, no track-record entry is written, every
